@@ -463,11 +463,17 @@ type vhSM struct {
 	symEntrances     int  // how many more entrance responses carry arbitrary numbers (later ones: no votes yet)
 	entrancePHs      int  // max proposed headers in an entrance response
 	ownPHInRestart   bool
-	viewsLeft        int  // how many more view updates with new numbers may be delivered (<0: no limit)
-	laterEntrancePHs bool // entrance responses after the first of a life may carry headers too
-	strictPanics     bool // a panic inside the state machine is a violation (C09) instead of the end of the path
+	viewsLeft        int                  // how many more view updates with new numbers may be delivered (<0: no limit)
+	laterEntrancePHs bool                 // entrance responses after the first of a life may carry headers too
+	strictPanics     bool                 // a panic inside the state machine is a violation (C09) instead of the end of the path
 	gen              *tmconsensus.Genesis // genesis handed to the state machine (nil: the kit's own)
 	stepBefore       tsi.Step             // step the state machine was in when the current event arrived (0: start-up)
+	// finChoice != nil: the validator set the driver returns when it finalizes height h (C07:
+	// sets that change from height to height); nil: always the genesis set. drv is the ghost of
+	// what the driver returned first for each height.
+	finChoice         func(h uint64) tmconsensus.ValidatorSet
+	drv               map[uint64]tmconsensus.ValidatorSet
+	proposalAnyHeight bool // the strategy may propose above the initial height too (views then carry a previous-commit proof)
 
 	// ghost
 	life      int // process life (restarts)
@@ -647,8 +653,8 @@ func (e *vhSM) phs(hr vhHR, n int, own bool) []tmconsensus.ProposedHeader {
 				Hash:             []byte(tag),
 				PrevBlockHash:    []byte("p"),
 				Height:           hr.h,
-				ValidatorSet:     e.vs,
-				NextValidatorSet: e.vs,
+				ValidatorSet:     e.valSetAt(hr.h),
+				NextValidatorSet: e.nextValSetAt(hr.h),
 				DataID:           []byte("d" + tag),
 				PrevAppStateHash: []byte("app"),
 			},
@@ -665,17 +671,55 @@ func (e *vhSM) phs(hr vhHR, n int, own bool) []tmconsensus.ProposedHeader {
 	return out
 }
 
+// valSetAt / nextValSetAt: the sets the chain prescribes for height h and h+1 as the property
+// states them: what the driver returned when finalizing h-2 (h-1), the genesis set before that.
+func (e *vhSM) valSetAt(h uint64) tmconsensus.ValidatorSet {
+	if h >= 2 {
+		if vs, ok := e.drv[h-2]; ok {
+			return vs
+		}
+	}
+	return e.vs
+}
+
+// localInSet: the local validator belongs to the set of height h (a strategy proposes only
+// then; one that proposes as a non-validator is outside every claim, DESIGN §11).
+func (e *vhSM) localInSet(h uint64) bool {
+	for _, v := range e.valSetAt(h).Validators {
+		if v.PubKey.Equal(e.signer.key) {
+			return true
+		}
+	}
+	return false
+}
+
+func (e *vhSM) nextValSetAt(h uint64) tmconsensus.ValidatorSet { return e.valSetAt(h + 1) }
+
 func (e *vhSM) vrv(hr vhHR, n *vhNums) tmconsensus.VersionedRoundView {
-	return tmconsensus.VersionedRoundView{
+	v := tmconsensus.VersionedRoundView{
 		RoundView: tmconsensus.RoundView{
 			Height:          hr.h,
 			Round:           hr.r,
-			ValidatorSet:    e.vs,
+			ValidatorSet:    e.valSetAt(hr.h),
 			ProposedHeaders: e.phs(hr, n.nPH, n.ownPH),
 			VoteSummary:     n.summary(),
 		},
 		Version: n.version,
 	}
+	if e.proposalAnyHeight && hr.h > vhInitialHeight {
+		// the precommits that committed the previous height, as the mirror carries them along:
+		// one signature of the first validator of that height's set for the finalized block
+		if _, bh, _, _, err := e.fs.LoadFinalizationByHeight(e.ctx, hr.h-1); err == nil {
+			pvs := e.valSetAt(hr.h - 1)
+			v.RoundView.PrevCommitProof = tmconsensus.CommitProof{
+				PubKeyHash: string(pvs.PubKeyHash),
+				Proofs: map[string][]gcrypto.SparseSignature{
+					bh: {{KeyID: vkit.KeyID(0), Sig: []byte("pc")}},
+				},
+			}
+		}
+	}
+	return v
 }
 
 func (e *vhSM) committedHeader(h uint64) tmconsensus.CommittedHeader {
@@ -684,8 +728,8 @@ func (e *vhSM) committedHeader(h uint64) tmconsensus.CommittedHeader {
 			Hash:             []byte("K"),
 			PrevBlockHash:    []byte("p"),
 			Height:           h,
-			ValidatorSet:     e.vs,
-			NextValidatorSet: e.vs,
+			ValidatorSet:     e.valSetAt(h),
+			NextValidatorSet: e.nextValSetAt(h),
 			DataID:           []byte("dK"),
 			PrevAppStateHash: []byte("app"),
 		},
@@ -844,7 +888,7 @@ func (e *vhSM) applicable(kinds []int) []int {
 			ok = e.pendingReq(false) != nil
 		case evProposal:
 			// (the strategy may send a second, different proposal on the same round's channel)
-			ok = live && rd != nil && rd.proposalCh != nil && rd.propCount < 2 && e.cur.h == vhInitialHeight && e.participating
+			ok = live && rd != nil && rd.proposalCh != nil && rd.propCount < 2 && (e.cur.h == vhInitialHeight || e.proposalAnyHeight) && e.participating && e.localInSet(e.cur.h)
 		case evFinalization:
 			ok = e.pendingFin() != nil
 		case evHeightCommitted:
@@ -1013,11 +1057,23 @@ func (e *vhSM) deliver(k int) bool {
 	case evFinalization:
 		f := e.pendingFin()
 		f.answered = true
+		fvs := e.vs
+		if e.finChoice != nil {
+			if prev, ok := e.drv[f.req.Header.Height]; ok {
+				fvs = prev // the driver is deterministic: a second request for a height gets the same answer
+			} else {
+				fvs = e.finChoice(f.req.Header.Height)
+				if e.drv == nil {
+					e.drv = map[uint64]tmconsensus.ValidatorSet{}
+				}
+				e.drv[f.req.Header.Height] = fvs
+			}
+		}
 		resp := tmdriver.FinalizeBlockResponse{
 			Height:       f.req.Header.Height,
 			Round:        f.req.Round,
 			BlockHash:    f.req.Header.Hash,
-			Validators:   e.vs.Validators,
+			Validators:   fvs.Validators,
 			AppStateHash: []byte("app"),
 		}
 		select {
